@@ -40,9 +40,9 @@ def run(ctx, chk):
                  "consulted, so a restored level trades in timestamp order, not in the original queue order (orders added with timestamps 5 then 1 swap)")
     else:
         chk.ok("O1", tv.defp, tv.span)
-    Q.rule_push(chk, "O4", "O4")
+    Q.rule_push(chk, "O4", None)
     Q.rule_pop(chk, "O4", "O4", "O4", seq=True)
-    Q.rule_remove_find(chk, "O4")
+    Q.rule_remove_find(chk, "O4", seq=True)
     Q.who_may(chk, "O4")
     from .. import lvlrules as LR2
     LR2.rule_no_remove_then_push_in_extras(ctx, chk, LevelAnalysis2(ctx), "O4")
